@@ -6,7 +6,7 @@ CONSTANTS
   EmitStep = FALSE
   Heights = {1}
   Rounds = {0, 1}
-  Stages = {1, 3}
+  Stages = {1}
   Facts = {"A"}
   ExSets = {{}, {"n2"}}
   AllowSC = FALSE
